@@ -110,7 +110,8 @@ inline bool read_command(std::istream& in, command& c) {
 } // namespace verif
 
 // called by ASan/UBSan right before they abort: record the crash in the trace
-extern "C" inline void __asan_on_error() { verif::tracer::crash("asan", 0); }
-extern "C" inline void __ubsan_on_report() { verif::tracer::crash("ubsan", 0); }
+// (weak + used: emitted in every TU that includes this header, even when nothing references them)
+extern "C" __attribute__((weak, used)) void __asan_on_error() { verif::tracer::crash("asan", 0); }
+extern "C" __attribute__((weak, used)) void __ubsan_on_report() { verif::tracer::crash("ubsan", 0); }
 
 #endif
